@@ -790,6 +790,55 @@ class _MissingImportFinder:
         if node.name:
             self._visit_Store(node.name)
         self.visit(node.body)
+        if node.name:
+            # Python unbinds the name at the end of the handler
+            # (``except E as e: ...`` ends with an implicit ``del e``).
+            self.scopestack[-1].pop(node.name, None)
+
+    def visit_AugAssign(self, node) -> None:
+        # ``x += v`` reads ``x`` before it stores it.  The generic visitor
+        # would only see the target in Store context.
+        assert node._fields == ('target', 'op', 'value'), node._fields
+        target = node.target
+        if isinstance(target, ast.Name):
+            self._visit_Load(target.id)
+        elif isinstance(target, ast.Attribute):
+            load_target = copy.copy(target)
+            load_target.ctx = ast.Load()
+            self.visit(load_target)
+        self.visit(node.value)
+        self.visit(target)
+
+    def visit_AnnAssign(self, node) -> None:
+        # Python evaluates the value, then binds the target (only if there
+        # is a value), then evaluates the annotation.  The generic visitor
+        # would store the target first, hiding ``x: T = x``.
+        assert node._fields == ('target', 'annotation', 'value', 'simple'), node._fields
+        if node.value is not None:
+            self.visit(node.value)
+            self.visit(node.target)
+        elif not isinstance(node.target, ast.Name):
+            # ``a.b: T`` / ``a[i]: T`` evaluate ``a`` (and ``i``).
+            load_target = copy.copy(node.target)
+            load_target.ctx = ast.Load()
+            if isinstance(load_target, ast.Attribute):
+                self.visit(load_target.value)
+            else:
+                self.generic_visit(load_target)
+        self.visit(node.annotation)
+
+    def visit_For(self, node) -> None:
+        # The iterable is evaluated before the target is bound
+        # (``for c in [c]``).
+        assert node._fields == ('target', 'iter', 'body', 'orelse', 'type_comment'), node._fields
+        self.visit(node.iter)
+        self.visit(node.target)
+        self.visit(node.body)
+        self.visit(node.orelse)
+        self._visit_typecomment(node.type_comment)
+
+    def visit_AsyncFor(self, node) -> None:
+        return self.visit_For(node)
 
     def visit_Dict(self, node):
         assert node._fields == ('keys', 'values')
